@@ -68,6 +68,13 @@ impl Allocation {
 impl Drop for Allocation {
     #[track_caller]
     fn drop(&mut self) {
+        // The model is failing and the execution is gone: nothing to record.
+        // (The allocations that are still tracked when a leak is reported
+        // are dropped with the execution, outside of the model.)
+        if rt::panicking_without_execution() {
+            return;
+        }
+
         let location = location!();
         rt::execution(|execution| {
             let state = self.state.get_mut(&mut execution.objects);
